@@ -13,12 +13,12 @@ SYS_NOTE = ('bounded: <= 3 simulators, K steps per simulator (2-3), D early deli
 SYS_TECH = 'symbolic execution of the real World.run()/scheduler with z3 (own executor) under a solver-driven event loop; reference monitor in tiered time; concrete replay'
 
 CHECKS = {
-    'C01': ('every path of the real scheduler within the bounds satisfies: no step of X begins while a step of a feeding simulator whose delayed output is due at or before it is unfinished, and no feeding simulator is stepped at a time due at or before a step X has begun; decided by z3 for all behaviours (unbounded times) and all reply orders', 'DESIGN.md section 5 C01'),
+    'C01': ('every path of the real scheduler within the bounds satisfies: no step of X begins while a step of a feeding simulator whose delayed output is due at or before it is unfinished, and no feeding simulator is stepped - or becomes required to step - at a time due at or before a step X has begun; decided by z3 for all behaviours (unbounded times) and all reply orders', 'DESIGN.md section 5 C01'),
     'C02': ('every path: each step matches the least outstanding demand of the reference (initial steps, returned next steps < until, delayed trigger outputs), strictly increasing, within [0, until), no demand left at the end, no late or spurious step; decided by z3 for all behaviours and reply orders within the bounds', 'DESIGN.md section 5 C02'),
     'C03': ('every path: the inputs dict of every step equals the reference data model (latest due persistent value or initial data; every due event exactly once) computed from the recorded get_data replies, with cache on and off; decided by z3 within the bounds', 'DESIGN.md section 5 C03'),
     'C05': ('every path: run() returns; no deadlock (nothing ready, nothing pending), no livelock, no exception from run() for API-compliant simulators; for all behaviours and reply orders within the bounds', 'DESIGN.md section 5 C05'),
     'C07': ('every path: every later step inside a promised window (t, max_advance] is caused by a self-schedule or by a trigger whose causal past contains a step of the same simulator at or after t; max_advance <= until and == until without trigger inputs', 'DESIGN.md section 5 C07'),
-    'C10': ('every path with lazy_stepping=True: when a simulator begins a step no simulator it feeds has an outstanding (demanded or in-flight) earlier step', 'DESIGN.md section 5 C10'),
+    'C10': ('every path with lazy_stepping=True: when a simulator begins a step no simulator it feeds has an outstanding (demanded or in-flight) earlier step, and no earlier step of a consumer becomes outstanding after its producer has begun a later one', 'DESIGN.md section 5 C10'),
 }
 
 KERNEL = {
